@@ -56,6 +56,7 @@ type authCase struct {
 	Decoys       int    `json:"decoys"`     // other accounts on the broker
 	Iterations   int    `json:"iterations"`
 	LowIter      int    `json:"low_iter,omitempty"` // low-iterations: what the broker announces
+	NullMsg      bool   `json:"null_msg,omitempty"` // failed rounds are answered with a null error message
 	First        int64  `json:"first"`              // log start of partition 1
 	Last         int64  `json:"last"`               // log end of partition 1
 }
@@ -63,7 +64,7 @@ type authCase struct {
 const topic = "t"
 
 var mechs = []string{"PLAIN", "SCRAM-SHA-256", "SCRAM-SHA-512"}
-var entries = []string{"dial", "dialleader", "client", "writer", "newwriter"}
+var entries = []string{"dial", "dialleader", "client", "writer", "newwriter", "readerseek"}
 
 // every fault, with the step at which the exchange fails (0 = handshake, n = authenticate round n)
 var faults = []struct {
@@ -231,6 +232,7 @@ func run(tb ev.TB, c authCase) {
 	default:
 		tb.Fatalf("harness: unknown fault %q", c.Fault)
 	}
+	cfg.NullErrorMessages = c.NullMsg
 	if c.Entry == "client" {
 		cfg.StepDelay = 2 * time.Millisecond // the two brokers' exchanges interleave
 	}
@@ -438,7 +440,7 @@ func run(tb ev.TB, c authCase) {
 }
 
 func family(entry string) string {
-	if entry == "dial" || entry == "dialleader" {
+	if entry == "dial" || entry == "dialleader" || entry == "readerseek" {
 		return "dialer"
 	}
 	return "transport"
@@ -543,6 +545,20 @@ func call(c authCase, nw *memnet.Network, cl *fakecluster.Cluster, mech sasl.Mec
 				return
 			}
 			res.wrong = fmt.Sprintf("ListOffsets returned %+v; partition 1 spans [%d,%d)", po, c.First, c.Last)
+		}
+	case "readerseek":
+		// a Reader configured with the mechanism in its Dialer; SetOffsetAt opens a connection of its own.  Whatever the
+		// library dials with instead of the configured Dialer ends up at the package's DefaultDialer, which is pointed at
+		// the same in-memory network here (without credentials, as it is by default): the broker sees that traffic too.
+		saved := kafka.DefaultDialer
+		kafka.DefaultDialer = &kafka.Dialer{DialFunc: nw.Dial, Timeout: callTimeout, ClientID: "c18-default"}
+		defer func() { kafka.DefaultDialer = saved }()
+		r := kafka.NewReader(kafka.ReaderConfig{Brokers: []string{bootstrap}, Topic: topic, Partition: 1, MinBytes: 1, MaxBytes: 1 << 20, MaxWait: 200 * time.Millisecond,
+			Dialer: &kafka.Dialer{DialFunc: nw.Dial, SASLMechanism: mech, Timeout: callTimeout, ClientID: "c18"}})
+		*cleanup = append(*cleanup, func() { r.Close() })
+		if err := r.SetOffsetAt(ctx, time.UnixMilli(1)); err != nil {
+			res.dialErr = err
+			return
 		}
 	case "newwriter":
 		// the pre-0.4 constructor: the SASL mechanism travels in WriterConfig.Dialer and NewWriter converts the Dialer into
@@ -799,7 +815,7 @@ func TestProduct(t *testing.T) {
 			k := i + seed + r
 			cr := fixedCreds[k%len(fixedCreds)]
 			c := authCase{Mech: co.Mech, HandshakeMax: co.HS, AuthMax: int16(k % 2), Entry: co.Entry, Fault: co.Fault, Code: codeFor(co.Fault, k),
-				User: cr[0], Pass: cr[1], WrongPass: wrongOf(cr[1], k), Decoys: k % 3, Iterations: 4096, First: int64(k % 7), Last: int64(k%7 + k%11)}
+				User: cr[0], Pass: cr[1], WrongPass: wrongOf(cr[1], k), Decoys: k % 3, Iterations: 4096, First: int64(k % 7), Last: int64(k%7 + k%11), NullMsg: (k/2)%2 == 1}
 			if co.Fault == "low-iterations" {
 				c.LowIter = []int{4095, 1}[k%2]
 			}
@@ -835,6 +851,7 @@ func TestGenerated(t *testing.T) {
 			User: genCred(t, "user"), Pass: genCred(t, "pass"), Decoys: rapid.IntRange(0, 3).Draw(t, "decoys"),
 			Iterations: rapid.SampledFrom([]int{4096, 4096, 4096, 4097, 6000}).Draw(t, "iterations")}
 		c.WrongPass = wrongOf(c.Pass, rapid.IntRange(0, 3).Draw(t, "wrongHow"))
+		c.NullMsg = rapid.Bool().Draw(t, "nullMsg")
 		if co.Fault == "low-iterations" {
 			c.LowIter = rapid.SampledFrom([]int{4095, 1, 1000}).Draw(t, "lowIter")
 		}
